@@ -5,7 +5,7 @@
 # On success stores it as /verif/seeded/<prop>-<variant>/{patch.diff,demo.sh,meta.json}.
 set -u
 prop="$1"; var="$2"; src="$3"; pfx="${4:-$var}"
-dst="/verif/seeded/$prop-$var"
+dst="/verif/seeded/$prop-${SEED_TAG:-}$var"
 wt="/dev/shm/seedconfirm.$prop$var"
 log="/dev/shm/seedconfirm.$prop$var.log"
 rm -rf "$wt"; git -C /repo worktree prune
